@@ -1,7 +1,7 @@
 (** C04: for EVERY chunking of the input (hence every schedule of the work-stealing pool and every
     thread count), the parallel operators compute what the sequential operators compute. *)
 From Coq Require Import List ZArith Bool Lia Permutation Sorted.
-From VibeSQL Require Import Base.LexOrd Sem.Syntax Sem.Rel Sem.Laws Mech.Join Mech.JoinLaws Mech.Accumulator Mech.AccumulatorLaws Mech.Parallel.
+From VibeSQL Require Import Base.LexOrd Sem.Syntax Sem.Rel Sem.Laws Sem.OrderLaws Mech.Join Mech.JoinLaws Mech.Accumulator Mech.AccumulatorLaws Mech.Parallel.
 Import ListNotations.
 Open Scope Z_scope.
 
@@ -86,6 +86,15 @@ Section Sort.
     destruct (G chunks [] (Sorted_nil _)) as [S P]. split; [exact S|exact P].
   Qed.
 End Sort.
+
+(** for the ORDER BY comparator: whatever the chunking, the parallel sort returns the key sequence of the
+    sequential sort (the rows themselves may differ only inside ties) *)
+Theorem par_sort_same_keys ks chunks :
+  map (keyvec ks) (par_sort (row_le ks) chunks) = map (keyvec ks) (sort_rows (row_le ks) (concat chunks)).
+Proof.
+  destruct (par_sort_sorted_perm (row_le ks) (row_le_total ks) chunks) as [S P].
+  apply any_sorted_perm_has_reference_keys; assumption.
+Qed.
 
 (** * partitioned hash-table build: a probe sees the same bucket, in the same order *)
 Theorem par_ht_lookup_eq kr k chunks : is_null k = false ->
